@@ -115,10 +115,17 @@ func Harness_C03_symmetry() {
 	vr.Reach("end")
 }
 
+// VertexCrossing as an oracle of its four arguments (its own properties are not decided here);
+// natively the real function runs.
+func vrstub_C03_VertexCrossing(a, b, c, d Point) bool {
+	return vr.UF9("VC", c.X, c.Y, c.Z, d.X, d.Y, d.Z, a.X+b.X, a.Y+b.Y, a.Z+b.Z) != 0
+}
+
 // EdgeOrVertexChainCrossing = Cross ∨ (MaybeCross ∧ VertexCrossing with the pre-call c).
-func Harness_C03_edge_or_vertex_thorough() {
+func Harness_C03_edge_or_vertex() {
 	vr.Domain("RUF")
 	vrC03Stubs()
+	vr.Stub("VertexCrossing", "vrstub_C03_VertexCrossing")
 	a, b, c, d := vrFourPoints()
 	e := NewEdgeCrosser(a, b)
 	e.RestartAt(c)
